@@ -652,6 +652,22 @@ theorem design_pipeline_wf (fuel : Nat) (exts : List PExt) (hext : ∀ e ∈ ext
       rw [hwf ⟨others, exts⟩ acc (fun r => targetPorts_exts_only ⟨others, exts⟩ acc r), hrest others]
       rfl
 
+/-- **`WFpkg` for F1 designs, every clause.** The package `to_proto` returns for a design of fragment F1 — all modules through the
+    composed pass list and the exporter, children first — satisfies the whole of the executed C06 predicate, given what the other
+    theorems of this file establish of their own parts: module names distinct (`exported_names_unique`) and external-module
+    declarations distinct (`declarations_consistent`). -/
+theorem package_wf_F1 (fuel : Nat) (exts : List PExt) (hext : ∀ e ∈ exts, (e.ports.map (·.1)).Nodup)
+    (hs : List HModule) (mods : List PModule) (hm : ∀ h ∈ hs, ModOK₀ h)
+    (hp : pipelineDesign fuel exts hs [] = .ok mods)
+    (hnames : (mods.map (·.name)).Nodup) (hkeys : (exts.map (fun e => e.domain ++ "." ++ e.name)).Nodup) :
+    WFpkg ⟨mods, exts⟩ = true := by
+  obtain ⟨new, hnew, hprob⟩ := design_pipeline_wf fuel exts hext hs [] mods hm (fun _ h => by cases h) hp
+  simp only [List.nil_append] at hnew
+  subst hnew
+  unfold WFpkg problems
+  rw [dups_nil_of_nodup _ hnames, dups_nil_of_nodup _ hkeys, hprob mods]
+  rfl
+
 /-- non-vacuity: a child with a two-bit port under a parent that wires it to a reversed slice of a (one-part) concatenation of a bus -/
 example :
     let child : HModule := ⟨"Child", [], [⟨"d", 2, some "INPUT"⟩], [⟨"r", .ext "vlsir.primitives" "resistor", [], [("p", .slice (.sig "d" 2) (.int 0)), ("n", .slice (.sig "d" 2) (.int 1))]⟩]⟩
